@@ -310,7 +310,12 @@ func runC09(t *testing.T, spec RunSpec) *Verdict {
 	cell := f.name + "/" + []string{"vm", "interp"}[backend]
 	ref := c09Reference(t, fam, d, backend)
 	if ref.err != "" {
-		v.fail(P, "infra", "", "", cell+": "+ref.err)
+		// the fault-free run under generous limits must complete: it is within every limit
+		if strings.Contains(ref.err, "does not compile") {
+			v.fail(P, "infra", "", "", cell+": "+ref.err)
+		} else {
+			v.fail(P, refClass(ref.err), "within-limits-completes", cell+":reference", "fault-free run under generous limits: "+ref.err)
+		}
 		return v
 	}
 	kind := spec.F("kind", 0) // 0 call depth, 1 operand stack, 2 memory
@@ -535,3 +540,18 @@ func sortInts(a []int) {
 
 var _ = strconv.Itoa
 var _ = value.NewValueNull
+
+// refClass maps a failed reference run to a violation class.
+func refClass(err string) string {
+	switch {
+	case strings.Contains(err, "crash"):
+		return "host-crash"
+	case strings.Contains(err, "deadlock"):
+		return "deadlock"
+	case strings.Contains(err, "runaway"), strings.Contains(err, "deadline"):
+		return "runaway"
+	case strings.Contains(err, "infra"):
+		return "infra"
+	}
+	return "wrong-result"
+}
